@@ -40,7 +40,7 @@ int main(int argc, char **argv) {
         int quick = argv[2][0] == 'q'; vt_seed(strtoull(argv[3], 0, 10) + 19); vt_open(argv[4]);
         for (int res = 0; res <= 15; res++) {
             CellVec cv = {0};
-            cv_pentagon_strata(&cv, res, quick ? 2 : 4); cv_seam_cells(&cv, res, quick ? 6 : 40); cv_random_cells(&cv, res, quick ? 10 : 60); cv_sparse_digit_sample(&cv, res, quick ? 6 : 40); cv_polar_cells(&cv, res);
+            cv_pentagon_strata(&cv, res, quick ? 2 : 4); cv_seam_cells(&cv, res, quick ? 6 : 40); cv_random_cells(&cv, res, quick ? 10 : 60); cv_sparse_digit_sample(&cv, res, quick ? 6 : 40); cv_coarse_boundary_sample(&cv, res, quick ? 8 : 40); cv_polar_cells(&cv, res);
             /* neighbours of the seam cells: the only cells with two faces live along the 30 edges */
             int64_t n0 = cv.n; for (int64_t i = 0; i < n0; i += (quick ? 5 : 2)) { H3Index d[7] = {0}; gridDisk(cv.v[i], 1, d); for (int q = 0; q < 7; q++) if (d[q]) cv_push(&cv, d[q]); }
             for (int64_t i = 0; i < cv.n; i++) ev_faces(cv.v[i]);
